@@ -6,7 +6,7 @@
 From Coq Require Import NArith List.
 Import ListNotations.
 From CXV Require Import Gen.Blocks Parse.BlocksSM Parse.BlocksSpec Parse.BlocksThms.
-From CXV Require Import Gen.TokTy Parse.Declarator Parse.DeclSpec Parse.DeclThms Parse.BaseClause Parse.EnumList Parse.Specs Parse.Init Parse.Members.
+From CXV Require Import Gen.TokTy Parse.Declarator Parse.DeclSpec Parse.DeclThms Parse.BaseClause Parse.EnumList Parse.Specs Parse.Init Parse.Members Parse.MethodTail.
 Open Scope N_scope.
 
 (* the access delivered with a member equals the backward-scan specification
@@ -45,6 +45,20 @@ Theorem field_statement_decodes_partial : forall pre post b items rest,
      (DOk (m, map (mitem_out (TBase b (m_const m) (m_volatile m))) items, rest)).
 Proof. exact field_stmt_roundtrip. Qed.
 
+(* what follows a method's parameter list: the qualifiers written -- const,
+   volatile, override, final, & / &&, throw(...), noexcept[(...)] -- in any order
+   and number are the flags reported (a later throw / noexcept replaces an
+   earlier one), then exactly one of: nothing, `= 0` (pure virtual), `= delete`,
+   `= default`, a body (skipped whatever it holds), or a constructor
+   initialiser list followed by a body (both skipped); parsing resumes right
+   after.  Any number of qualifiers and initialisers. *)
+Theorem method_tail_decodes_partial : forall items e rest,
+  Forall mq_ok items -> mend_ok e rest ->
+  parse_method_end (flat_map mq_toks items ++ mend_toks e ++ rest)
+  = DOk (apply_end e (fold_left (fun q i => apply_mq i q) items mt0), rest).
+Proof. exact parse_method_end_roundtrip. Qed.
+
+Print Assumptions method_tail_decodes_partial.
 Print Assumptions field_statement_decodes_partial.
 Print Assumptions access_in_force_partial.
 Print Assumptions base_clause_decodes_partial.
@@ -59,4 +73,10 @@ Example c03_bases_run :
     (join_comma (map wbase_toks [mkW (Some T_public) 1 false false false; mkW None 2 true true false; mkW (Some T_protected) 3 true false true])
      ++ [ktok T_LIT_123])
   = DOk ([mkBase T_public 1 false false; mkBase T_private 2 true false; mkBase T_protected 3 true true], [ktok T_LIT_123]).
+Proof. vm_compute. reflexivity. Qed.
+
+Example c03_mtail_run :
+  parse_method_end (flat_map mq_toks [MqConst; MqNoexcept None; MqOverride] ++
+                    mend_toks (MeCtor [mkCI [mkTk T_NAME 7] false [mkTk 3 9] false; mkCI [mkTk T_NAME 8] true [] true] [mkTk T_NAME 5]) ++ [ktok SEMI])
+  = DOk (mkMT true false true false 0 None (Some []) false false false true, [ktok SEMI]).
 Proof. vm_compute. reflexivity. Qed.
